@@ -73,6 +73,10 @@ def _event(args):
     if rng.random() < 0.4:
         # the index is irrelevant frame structure: non-unique labels, floats, unsorted
         w.df.index = rng.choice([[rng.choice(["s1", "s2", "s3"]) for _ in range(w.n)], [float(rng.randint(0, 5)) + 0.5 for _ in range(w.n)], list(range(w.n, 0, -1))])
+    if opts.get("callee_cols"):
+        # unused columns that happen to be named like functions the formula calls (C, I, np, scale ...), with missing values
+        for nm in opts["callee_cols"]:
+            w.df[nm] = [None if rng.random() < 0.3 else float(rng.randint(0, 3)) for _ in range(w.n)]
     resp = rng.choice(opts.get("resps", ["y"]))
     text, used, struct = gen.gen_formula(rng, groups=opts.get("groups", True), max_terms=opts.get("max_terms", 4), resp=resp, hier=opts.get("hier", 0.85))
     policy = rng.choice(opts.get("policies", ["drop"]))
